@@ -240,6 +240,31 @@ Theorem C11_utm_hemisphere :
 Proof. exact norm_crs_utm_spec. Qed.
 Print Assumptions C11_utm_hemisphere.
 
+(** ** 10. The footprint request behind [B] (model of the repaired code)
+       buffer: at least [b] pixels along both axes whatever the signs of the
+       resolution; before repair 99d08e4 (max of the signed components) a
+       mirrored grid was shrunk instead: refuted statement below.
+       densification: 100..10000 points per side, segments shorter than 256
+       pixels up to 2.56 million pixels per side (repair 4ef5f46). *)
+Theorem C11_footprint_buffer_grows :
+  forall b rx ry, 0 < b -> ~ rx == 0 -> ~ ry == 0 ->
+    0 < footprint_buffer b (rx, ry) /\
+    b * Qabs rx <= footprint_buffer b (rx, ry) /\ b * Qabs ry <= footprint_buffer b (rx, ry).
+Proof. exact footprint_buffer_grows. Qed.
+Print Assumptions C11_footprint_buffer_grows.
+
+Theorem C11_footprint_buffer_unrepaired_refuted :
+  exists rs, ~ fst rs == 0 /\ ~ snd rs == 0 /\ footprint_buffer_unrepaired (9 # 10) rs < 0.
+Proof. exact footprint_buffer_unrepaired_shrinks. Qed.
+Print Assumptions C11_footprint_buffer_unrepaired_refuted.
+
+Theorem C11_footprint_densification :
+  forall ny nx,
+    (100 <= footprint_npoints ny nx <= 10000)%Z /\
+    (Z.max ny nx < 256 * 10001 -> Z.max ny nx < 256 * (footprint_npoints ny nx + 1))%Z.
+Proof. exact footprint_npoints_spec. Qed.
+Print Assumptions C11_footprint_densification.
+
 (** ** Non-vacuity: concrete instances inside the hypotheses *)
 Definition ex_src := mkSrc true 32630 1 (10, -10).
 Definition ex_B := mkBox (-(25 # 4)) (35 # 1) (-(5 # 1)) (145 # 4).
